@@ -55,7 +55,8 @@ def make_case(rng, cid, prec, quick):
     c = dict(id=cid, prec=prec, driver="gssvx", stype=rng.choice(["NC", "NR"]), m=n, n=n, colptr=A["colptr"], rowind=A["rowind"],
              vals=vals, nrhs=nrhs, rhs=rhs_(), nprocs=rng.choice([1, 2, 4]), colperm=rng.choice([0, 1, 2, 3]),
              ienv=[rng.choice([1, 2, 8, 20]), rng.choice([1, 2, 6]), rng.choice([8, 200]), 200, 100, -50, -50, -30],
-             thresh=1.0, trans=rng.choice([0, 1, 2]), fact=(1 if fact == 2 else fact), dumplu=0, timeout=120, kind=mode)
+             thresh=1.0, trans=rng.choice([0, 1, 2]), fact=(1 if fact == 2 else fact), dumplu=0, timeout=120, kind=mode,
+             ldb=n + rng.choice([0, 0, 1, 4]), ldx=n + rng.choice([0, 0, 2, 3]))
     if fact == 2:
         c["rhs2"] = rhs_(); c["trans2"] = rng.choice([0, 1, 2]); c["kind"] = mode + "+factored"
     return c
@@ -112,6 +113,8 @@ def oracle(c, r):
         return "info = %d, expected 0 or n+1" % r["info"]
     if r["threads_after"] != 1:
         return "threads left after return"
+    if r.get("pad_modified"):
+        return "%d storage entries of B/X outside the n x nrhs matrices (ldb %d, ldx %d) were modified" % (r["pad_modified"], r.get("ldb"), r.get("ldx"))
     tol = Fraction(50 * (n + 1), 1 << UPOW[prec])
     X = [float.fromhex(x) for x in r["X"]]
     w, wi = backward_error(c, X, c["rhs"], c["trans"])
@@ -130,7 +133,7 @@ def oracle(c, r):
 def run(ctx):
     rng = ctx.rng
     ctx.cov["rule"] = ("p?gssvx, trans {N,T,C} x NC/NR x fact {DOFACT, EQUILIBRATE, EQUILIBRATE+second call FACTORED with new B/trans} x "
-                       "row/column/both/no bad scaling (powers of two up to 2^+-18) x s/d/c/z x nrhs {0,1,3} x nprocs {1,2,4} x "
+                       "row/column/both/no bad scaling (powers of two up to 2^+-18) x s/d/c/z x nrhs {0,1,3} x leading dimensions ldb, ldx >= n chosen independently x nprocs {1,2,4} x "
                        "orderings; well-conditioned cores (diagonally dominant, banded, grid, block diagonal); non-trivial = n>=3")
     ctx.coq_properties()
     N = {"d": 80, "s": 25, "z": 25, "c": 20} if ctx.quick() else {"d": 1200, "s": 300, "z": 300, "c": 250}
